@@ -12,7 +12,7 @@ PROP = {
     ],
 }
 TEXT = {
-    "text": "Coq theorems: (recovery) from ANY server state satisfying the invariant -- whatever subset/order/duplication of the device's datagrams was delivered before -- after one fault-free sync round (server bitfield -> the client's resend loop with its uint32 arithmetic -> every retransmission delivered) the server holds a record for every slot of its window that is still acceptable, not newer than the device's latest reading, and for which the device's history holds a reading >= 2; (identity) all datagrams a device ever emits for one slot are the same 80 bytes (readings fitting 32 signed bits); (harmlessness) delivering a report again changes nothing in any slot state, so a slot that only saw copies of one report is banned only by the capacity rule. Harness: a real client reports through a scripted UDP relay (drop/duplicate/reorder) to a real server, then the real threadedSyncWithServer runs one round against the real TCP endpoint (optionally with a dead second server), retransmissions are compared byte for byte with the originals and delivered, and the server snapshot is checked; the same round is evaluated in the model (HResend hop).",
+    "text": "Coq theorems: (recovery) from ANY server state satisfying the invariant -- whatever subset/order/duplication of the device's datagrams was delivered before -- after one fault-free sync round (server bitfield -> the client's resend loop with its uint32 arithmetic -> every retransmission delivered) the server holds a record for every slot of its window that is still acceptable, not newer than the device's latest reading, and for which the device's history holds a reading >= 2; (identity) all datagrams a device ever emits for one slot are the same 80 bytes (readings fitting 32 signed bits); (harmlessness) delivering a report again changes nothing in any slot state, so a slot that only saw copies of one report is banned only by the capacity rule. Harness: a real client reports through a scripted UDP relay (drop/duplicate/reorder) to a real server, then the real threadedSyncWithServer runs one round against the real TCP endpoint (optionally with a dead second server), retransmissions are compared byte for byte with the originals and delivered, and the server snapshot is checked; the same round is evaluated in the model (HResend hop). Added after seeded-change rounds: server window at offset 0 / several weeks on / rotating between originals and sync round, device installed before / at / after the window start, retransmissions delivered when the clock reads exactly slot+432, every sync reply received while rotations run must be a snapshot.",
     "note": "Trusted: Coq kernel+vm_compute, harness, loopback network. Crypto is a parameter of the theorems.",
     "technique": "Coq proof (composition of the client resend loop with the server step: induction over the retransmission list, frame + monotonicity of occupied slots) + differential correspondence with real client and server + oracle",
 }
